@@ -518,6 +518,15 @@ fn main() {
             }
         }
     }
+    // a scrape in progress, a registration, and a conflicting collector registered and unregistered again by a third thread
+    for (x, y) in [(2usize, 4usize), (4, 2), (0, 2), (2, 0), (5, 0), (6, 2)] {
+        for (si, start) in [vec![7usize], vec![7, 9]].into_iter().enumerate() {
+            if si == 1 && !thorough {
+                continue;
+            }
+            drivers.push(RegDriver { pool: cpool.clone(), start, programs: vec![vec![Op::Gather], vec![Op::Register(x)], vec![Op::Register(y), Op::Unregister(y)]], map_seed: 1 + (x + y) as u64 % 3 });
+        }
+    }
     let nd = drivers.len();
     let results = vsched::explore_many(drivers, vsched::Mode::U, 300_000, 3, 16, |d| RegDriver { pool: d.pool.clone(), start: d.start.clone(), programs: d.programs.clone(), map_seed: d.map_seed });
     let summary = vsched::fold_results(&mut rep, results);
